@@ -5,19 +5,21 @@ def register(prop, J):
     prop("C09",
          rule="values of map-bearing records (C01's corpus and generators) built in 4 representation variants (map insertion order "
               "reversed, empty collections as nil) x 3 repetitions x 6 formats; rapid-drawn key sets (string / int64 / bytes) encoded "
-              "under permutations; 2400 seed-fixed (value, format) cases encoded in 4 fresh processes; non-trivial = some map / "
+              "under permutations and with intermediate encodes while the set is filled; hand-built RawRecords with typed maps; every third "
+              "repetition follows marshals that failed midway; 2400 seed-fixed (value, format) cases encoded in 4 fresh processes; non-trivial = some map / "
               "parameter set / key set with >= 2 entries; distinct by (type, format, value) or key set",
          jobs=[
              J("determinism-v2", "v2", "codecprops", "^TestC09", checks=(6000, 1800000), shards=(4, 16), prepare="prepare_codec",
                extra_pkgs=["dyn", "gendrv"], timeout=(900, 3000)),
-             J("determinism-v1", "v1", "codecprops", "^TestC09", checks=(4000, 900000), shards=(4, 16), prepare="prepare_codec",
-               extra_pkgs=["dyn", "gendrv"], timeout=(900, 3000)),
+             # (no root-module job: the property is stated for the v2 module only, so an alarm about the root module's
+             #  serialisation would be an alarm on code where the property holds; the harness does run for v1 - it was used to
+             #  see that the root module happens to satisfy the same laws - with
+             #  J("determinism-v1", "v1", "codecprops", "^TestC09", ...) )
          ],
          level_text="byte identity of encodings across insertion orders, nil-vs-empty representations, repetitions (Go re-randomises map "
                     "iteration per range statement) and fresh processes (different map hash seeds), plus canonical order of object "
                     "keys, query parameters and batch ids checked on the reference-parsed output",
-         level_note="the property is stated for v2; the root-module job runs the same checks except parameter order (root-module "
-                    "bindings export no per-field marshaler and the root query writer keeps the order parameters are supplied in); "
-                    "complex-key batch id order is covered by the resource-level harness (C16)",
+         level_note="the property is stated for v2 and only v2 is judged; hand-built RawRecords (typed maps at any depth) are "
+                    "included; complex-key batch id order is covered by the resource-level harness (C16)",
          technique="property-based testing (rapid), metamorphic byte-identity relation, multi-process digest comparison",
          design_ref="2/C09")
